@@ -562,8 +562,13 @@ class MessageManager(ClientLike):
         src_name = src_module.name or f"Module({src_module.mod_id})"
 
         # Increment message counts
-        # Note: skip traffic count if we are currently forwarding out traffic messages)
-        if not self.sending_traffic.get():
+        # Note: the statistics messages themselves are not counted. Anything else that is
+        # forwarded while they go out (a FAILED_MESSAGE about one of them, a log line)
+        # counts towards the next report
+        if not (
+            self.sending_traffic.get()
+            and header.msg_type in (cd.MT_TIMING_MESSAGE, cd.MT_MESSAGE_TRAFFIC)
+        ):
             if self.b_send_msg_timing:
                 self.message_counts[header.msg_type] += 1
             self.traffic_counter[header.msg_type] += 1
@@ -803,13 +808,16 @@ class MessageManager(ClientLike):
 
     def send_traffic(self):
         """Send MESSAGE_TRAFFIC"""
+        # the report covers what was counted up to here
+        counts = list(self.traffic_counter.items())
+        self.traffic_counter.clear()
         with self.sending_traffic_ctx():
             self.logger.debug("MESSAGE_TRAFFIC")
             data = cd.MDF_MESSAGE_TRAFFIC()
             now = time.perf_counter()
             sub_seqno = 1
             i = 0
-            for mt, count in self.traffic_counter.items():
+            for mt, count in counts:
                 data.msg_type[i] = mt
                 data.msg_count[i] = count
                 i += 1
@@ -835,7 +843,6 @@ class MessageManager(ClientLike):
                 data.msg_count[i:] = [0 for _ in range(n_unused)]
                 self.send_message(data)
 
-        self.traffic_counter.clear()
         self.traffic_start = now
         self.traffic_seqno += 1
 
